@@ -1,7 +1,7 @@
 import AsherahVerif.Proofs.EnvCohSpec
 import AsherahVerif.Proofs.EnvCohAuth
 /-
-Specifications (`Spec`, see EnvCohSpec) of the primitives of the envelope model: metastore, KMS,
+Specifications (`CSpec`, see EnvCohSpec) of the primitives of the envelope model: metastore, KMS,
 AEAD, secret factory, key objects, cache slots.
 -/
 set_option linter.unusedVariables false
@@ -47,8 +47,8 @@ theorem msLoad_run (m : KeyMeta) (w : World) :
   split <;> simp [logCall_run]
 
 theorem msLoad_spec {a : Nat} {F : Prop} {P : World → Prop} (m : KeyMeta) :
-    Spec a F P (msLoad m) (fun ro w => ro = findRow w.store m) := by
-  refine Spec.of_still (msLoad_ext m) (msLoad_still m) fun w _ _ hnf _ => Or.inr ?_
+    CSpec a F P (msLoad m) (fun ro w => ro = findRow w.store m) := by
+  refine CSpec.of_still (msLoad_ext m) (msLoad_still m) fun w _ _ hnf _ => Or.inr ?_
   rw [msLoad_run]
   split
   · rename_i h
@@ -63,8 +63,8 @@ theorem msLoadLatest_run (k : KeyId) (w : World) :
   split <;> simp [logCall_run]
 
 theorem msLoadLatest_spec {a : Nat} {F : Prop} {P : World → Prop} (k : KeyId) :
-    Spec a F P (msLoadLatest k) (fun ro w => ro = latestRow w.store k) := by
-  refine Spec.of_still (msLoadLatest_ext k) (msLoadLatest_still k) fun w _ _ hnf _ => Or.inr ?_
+    CSpec a F P (msLoadLatest k) (fun ro w => ro = latestRow w.store k) := by
+  refine CSpec.of_still (msLoadLatest_ext k) (msLoadLatest_still k) fun w _ _ hnf _ => Or.inr ?_
   rw [msLoadLatest_run]
   split
   · rename_i h
@@ -81,8 +81,8 @@ theorem kmsEncrypt_run (m : Nat) (w : World) :
   split <;> simp [logCall_run]
 
 theorem kmsEncrypt_spec {a : Nat} {F : Prop} {P : World → Prop} (m : Nat) :
-    Spec a F P (kmsEncrypt m) (fun c _ => c = .kms m) := by
-  refine Spec.of_still (kmsEncrypt_ext m) (kmsEncrypt_still m) fun w _ _ hnf _ => Or.inr ?_
+    CSpec a F P (kmsEncrypt m) (fun c _ => c = .kms m) := by
+  refine CSpec.of_still (kmsEncrypt_ext m) (kmsEncrypt_still m) fun w _ _ hnf _ => Or.inr ?_
   rw [kmsEncrypt_run]
   split
   · rename_i h
@@ -104,9 +104,9 @@ theorem kmsDecrypt_nf {m : Nat} {w : World} (h : w.faults = []) : ∃ b, (kmsDec
   simp only [kmsDecrypt, bind_run, takeFault_eq, headD_nil h]
   simp [logCall_run, newBuf]
 
-theorem kmsDecrypt_spec {a : Nat} {F : Prop} (c : Ct) :
-    Spec a F (fun _ => F → ∃ m, c = .kms m) (kmsDecrypt c) (fun bm _ => c = .kms bm.2) := by
-  refine Spec.of_still (kmsDecrypt_ext c) (kmsDecrypt_still c) fun w _ _ hnf hp => Or.inr ?_
+theorem kmsDecrypt_cspec {a : Nat} {F : Prop} (c : Ct) :
+    CSpec a F (fun _ => F → ∃ m, c = .kms m) (kmsDecrypt c) (fun bm _ => c = .kms bm.2) := by
+  refine CSpec.of_still (kmsDecrypt_ext c) (kmsDecrypt_still c) fun w _ _ hnf hp => Or.inr ?_
   refine ⟨fun v hv => kmsDecrypt_ok hv, fun hF => ?_⟩
   obtain ⟨m, hm⟩ := hp hF
   subst hm
@@ -121,8 +121,8 @@ theorem aeadEncrypt_run (pt : Pt) (k : Nat) (w : World) :
   split <;> rfl
 
 theorem aeadEncrypt_spec {a : Nat} {F : Prop} {P : World → Prop} (pt : Pt) (k : Nat) :
-    Spec a F P (aeadEncrypt pt k) (fun c _ => ∃ n, c = .enc k n pt) := by
-  refine Spec.of_still (aeadEncrypt_ext pt k) (aeadEncrypt_still pt k) fun w _ _ hnf _ => Or.inr ?_
+    CSpec a F P (aeadEncrypt pt k) (fun c _ => ∃ n, c = .enc k n pt) := by
+  refine CSpec.of_still (aeadEncrypt_ext pt k) (aeadEncrypt_still pt k) fun w _ _ hnf _ => Or.inr ?_
   rw [aeadEncrypt_run]
   split
   · rename_i h
@@ -135,8 +135,8 @@ theorem aeadDecrypt_nf {k n : Nat} {pt : Pt} {w : World} (h : w.faults = []) :
   simp [logCall_run]
 
 theorem aeadDecrypt_spec {a : Nat} {F : Prop} (c : Ct) (k : Nat) :
-    Spec a F (fun _ => F → ∃ n pt, c = .enc k n pt) (aeadDecrypt c k) (fun pt _ => ∃ n, c = .enc k n pt) := by
-  refine Spec.of_still (aeadDecrypt_ext c k) (aeadDecrypt_still c k) fun w _ _ hnf hp => Or.inr ?_
+    CSpec a F (fun _ => F → ∃ n pt, c = .enc k n pt) (aeadDecrypt c k) (fun pt _ => ∃ n, c = .enc k n pt) := by
+  refine CSpec.of_still (aeadDecrypt_ext c k) (aeadDecrypt_still c k) fun w _ _ hnf hp => Or.inr ?_
   refine ⟨fun v hv => aeadDecrypt_ok hv, fun hF => ?_⟩
   obtain ⟨n, pt, hc⟩ := hp hF
   subst hc
@@ -148,47 +148,47 @@ theorem secretNew_nf {b m : Nat} {w : World} (h : w.faults = []) : ∃ s, (secre
   simp only [secretNew, bind_run, takeFault_eq, headD_nil h, wipeBuf, modify_run]
   exact ⟨_, rfl⟩
 
-theorem secretNew_spec {a : Nat} {F : Prop} {P : World → Prop} (b m : Nat) :
-    Spec a F P (secretNew b m) (fun _ _ => True) :=
-  Spec.of_still (secretNew_ext b m) (secretNew_still b m) fun w _ _ hnf _ =>
+theorem secretNew_cspec {a : Nat} {F : Prop} {P : World → Prop} (b m : Nat) :
+    CSpec a F P (secretNew b m) (fun _ _ => True) :=
+  CSpec.of_still (secretNew_ext b m) (secretNew_still b m) fun w _ _ hnf _ =>
     Or.inr ⟨fun _ _ => trivial, fun hF => secretNew_nf (hnf hF)⟩
 
 theorem secretRandom_nf {w : World} (h : w.faults = []) : ∃ s, (secretRandom w).1 = .ok s := by
   simp only [secretRandom, bind_run, takeFault_eq, headD_nil h]
   exact ⟨_, rfl⟩
 
-theorem secretRandom_spec {a : Nat} {F : Prop} {P : World → Prop} :
-    Spec a F P secretRandom (fun _ _ => True) :=
-  Spec.of_still secretRandom_ext secretRandom_still fun w _ _ hnf _ =>
+theorem secretRandom_cspec {a : Nat} {F : Prop} {P : World → Prop} :
+    CSpec a F P secretRandom (fun _ _ => True) :=
+  CSpec.of_still secretRandom_ext secretRandom_still fun w _ _ hnf _ =>
     Or.inr ⟨fun _ _ => trivial, fun hF => secretRandom_nf (hnf hF)⟩
 
-theorem newKeyObj_spec {a : Nat} {F : Prop} {P : World → Prop} (c : Int) (r : Bool) (m s : Nat) :
-    Spec a F P (newKeyObj c r m s) (fun k w => KeyIs w k c m) := by
-  refine Spec.of_still (newKeyObj_ext c r m s) (newKeyObj_still c r m s) fun w _ _ _ _ => Or.inr ?_
+theorem newKeyObj_cspec {a : Nat} {F : Prop} {P : World → Prop} (c : Int) (r : Bool) (m s : Nat) :
+    CSpec a F P (newKeyObj c r m s) (fun k w => KeyIs w k c m) := by
+  refine CSpec.of_still (newKeyObj_ext c r m s) (newKeyObj_still c r m s) fun w _ _ _ _ => Or.inr ?_
   refine ⟨fun v hv => ?_, fun _ => ⟨_, rfl⟩⟩
   simp only [newKeyObj] at hv ⊢
   cases hv
   exact ⟨{ created := c, revoked := r, mat := m, sec := s }, by simp, rfl, rfl⟩
 
-theorem newBuf_spec {a : Nat} {F : Prop} {P : World → Prop} (m : Nat) :
-    Spec a F P (newBuf m) (fun _ _ => True) :=
-  Spec.of_still_ok (newBuf_ext m) (newBuf_still m) fun w => ⟨_, rfl⟩
+theorem newBuf_cspec {a : Nat} {F : Prop} {P : World → Prop} (m : Nat) :
+    CSpec a F P (newBuf m) (fun _ _ => True) :=
+  CSpec.of_still_ok (newBuf_ext m) (newBuf_still m) fun w => ⟨_, rfl⟩
 
 theorem wipeBuf_spec {a : Nat} {F : Prop} {P : World → Prop} (b : Nat) :
-    Spec a F P (wipeBuf b) (fun _ _ => True) :=
-  Spec.of_still_ok (wipeBuf_ext b) (wipeBuf_still b) fun w => ⟨_, rfl⟩
+    CSpec a F P (wipeBuf b) (fun _ _ => True) :=
+  CSpec.of_still_ok (wipeBuf_ext b) (wipeBuf_still b) fun w => ⟨_, rfl⟩
 
 /-- `keyObj` when the object is known. -/
 theorem keyObj_spec {a : Nat} {F : Prop} {P : World → Prop} (o : Nat) (c : Int) (m : Nat)
     (h : ∀ w, Inv w → P w → KeyIs w o c m) :
-    Spec a F P (keyObj o) (fun ko _ => ko.created = c ∧ ko.mat = m) :=
-  Spec.of_still (keyObj_ext o) (keyObj_still o) fun w _ hi _ hp =>
+    CSpec a F P (keyObj o) (fun ko _ => ko.created = c ∧ ko.mat = m) :=
+  CSpec.of_still (keyObj_ext o) (keyObj_still o) fun w _ hi _ hp =>
     Or.inr ⟨fun v hv => (by cases hv; exact (h w hi hp).getD), fun _ => ⟨_, rfl⟩⟩
 
 /-- `keyObj` when nothing is needed about the result. -/
 theorem keyObj_spec' {a : Nat} {F : Prop} {P : World → Prop} (o : Nat) :
-    Spec a F P (keyObj o) (fun _ _ => True) :=
-  Spec.of_still_ok (keyObj_ext o) (keyObj_still o) fun w => ⟨_, rfl⟩
+    CSpec a F P (keyObj o) (fun _ _ => True) :=
+  CSpec.of_still_ok (keyObj_ext o) (keyObj_still o) fun w => ⟨_, rfl⟩
 
 /-! ### always-succeeding key bookkeeping -/
 
@@ -230,25 +230,25 @@ theorem releaseAll_total (l : List Nat) : Total (releaseAll l) := by
   | nil => exact Total.pure _
   | cons v t ih => unfold releaseAll; exact Total.bind (keyRelease_total v) fun _ => ih
 
-theorem keyCloseRaw_spec {a : Nat} {F : Prop} {P : World → Prop} (o : Nat) :
-    Spec a F P (keyCloseRaw o) (fun _ _ => True) :=
-  Spec.of_still_ok (keyCloseRaw_ext o) (keyCloseRaw_still o) (keyCloseRaw_total o)
-theorem keyRelease_spec {a : Nat} {F : Prop} {P : World → Prop} (o : Nat) :
-    Spec a F P (keyRelease o) (fun _ _ => True) :=
-  Spec.of_still_ok (keyRelease_ext o) (keyRelease_still o) (keyRelease_total o)
-theorem releaseAll_spec {a : Nat} {F : Prop} {P : World → Prop} (l : List Nat) :
-    Spec a F P (releaseAll l) (fun _ _ => True) :=
-  Spec.of_still_ok (releaseAll_ext l) (releaseAll_still l) (releaseAll_total l)
-theorem keyIncr_spec {a : Nat} {F : Prop} {P : World → Prop} (o : Nat) :
-    Spec a F P (keyIncr o) (fun _ _ => True) :=
-  Spec.of_still_ok (keyIncr_ext o) (keyIncr_still o) (Total.modify _)
-theorem keyWrap_spec {a : Nat} {F : Prop} {P : World → Prop} (o : Nat) :
-    Spec a F P (keyWrap o) (fun _ _ => True) :=
-  Spec.of_still_ok (keyWrap_ext o) (keyWrap_still o) (Total.modify _)
+theorem keyCloseRaw_cspec {a : Nat} {F : Prop} {P : World → Prop} (o : Nat) :
+    CSpec a F P (keyCloseRaw o) (fun _ _ => True) :=
+  CSpec.of_still_ok (keyCloseRaw_ext o) (keyCloseRaw_still o) (keyCloseRaw_total o)
+theorem keyRelease_cspec {a : Nat} {F : Prop} {P : World → Prop} (o : Nat) :
+    CSpec a F P (keyRelease o) (fun _ _ => True) :=
+  CSpec.of_still_ok (keyRelease_ext o) (keyRelease_still o) (keyRelease_total o)
+theorem releaseAll_cspec {a : Nat} {F : Prop} {P : World → Prop} (l : List Nat) :
+    CSpec a F P (releaseAll l) (fun _ _ => True) :=
+  CSpec.of_still_ok (releaseAll_ext l) (releaseAll_still l) (releaseAll_total l)
+theorem keyIncr_cspec {a : Nat} {F : Prop} {P : World → Prop} (o : Nat) :
+    CSpec a F P (keyIncr o) (fun _ _ => True) :=
+  CSpec.of_still_ok (keyIncr_ext o) (keyIncr_still o) (Total.modify _)
+theorem keyWrap_cspec {a : Nat} {F : Prop} {P : World → Prop} (o : Nat) :
+    CSpec a F P (keyWrap o) (fun _ _ => True) :=
+  CSpec.of_still_ok (keyWrap_ext o) (keyWrap_still o) (Total.modify _)
 
 /-! ### `withKey` -/
 
-theorem withKey_run {α : Type} (o : Nat) (f : Nat → M α) (w : World) :
+theorem withKey_run_coh {α : Type} (o : Nat) (f : Nat → M α) (w : World) :
     withKey o f w =
       if (w.secrets.getD (w.keys.getD o default).sec default).closes > 0 then
         (.error .secretClosed, { w with secrets := setAt w.secrets (w.keys.getD o default).sec (fun x => { x with aac := x.aac + 1 }) })
@@ -257,13 +257,13 @@ theorem withKey_run {α : Type} (o : Nat) (f : Nat → M α) (w : World) :
   split <;> simp
 
 /-- the one place where a destroyed secret can be touched: then the counter grows (`Bust`). -/
-theorem Spec.withKey {α : Type} {a : Nat} {F : Prop} {P : World → Prop} {o : Nat} {f : Nat → M α}
+theorem CSpec.withKey {α : Type} {a : Nat} {F : Prop} {P : World → Prop} {o : Nat} {f : Nat → M α}
     {G : α → World → Prop} (mat : Nat)
     (hk : ∀ w, Inv w → P w → ∃ c, KeyIs w o c mat) (hfe : ∀ m, Extends (f m))
-    (hf : Spec a F P (f mat) G) : Spec a F P (withKey o f) G := by
+    (hf : CSpec a F P (f mat) G) : CSpec a F P (withKey o f) G := by
   refine ⟨withKey_ext o f hfe, fun w ha hi hnf hp => ?_⟩
   obtain ⟨c, hkis⟩ := hk w hi hp
-  rw [withKey_run]
+  rw [withKey_run_coh]
   split
   · rename_i hcl
     by_cases hF : F
@@ -281,7 +281,7 @@ theorem Spec.withKey {α : Type} {a : Nat} {F : Prop} {P : World → Prop} {o : 
       exact Nat.lt_succ_of_le (ha hF)
     · right
       have he := withKey_ext o f hfe w
-      rw [withKey_run, if_pos hcl] at he
+      rw [withKey_run_coh, if_pos hcl] at he
       exact ⟨hi.still he ⟨rfl, rfl, id⟩, fun h => absurd h hF, fun v hv => (by cases hv), fun h => absurd h hF⟩
   · rw [hkis.getD.2]
     exact hf.post w ha hi hnf hp
@@ -343,7 +343,7 @@ theorem msStore_run (r : Row) (w : World) :
 /-- `msStore`: the row, if written, is written under a key that was free; the answer `true` means
 it is in the store; in fault-free mode the answer `false` means a row with that key exists. -/
 theorem msStore_spec {a : Nat} {F : Prop} (r : Row) :
-    Spec a F (fun w => RowGood w.store r ∧ r.created ≠ 0) (msStore r)
+    CSpec a F (fun w => RowGood w.store r ∧ r.created ≠ 0) (msStore r)
       (fun b w => (b = true → r ∈ w.store) ∧
         (b = false → F → ∃ r', r' ∈ w.store ∧ r'.kid = r.kid ∧ r'.created = r.created)) := by
   refine ⟨msStore_ext r, fun w ha hi hnf ⟨hg, hz⟩ => Or.inr ?_⟩
@@ -397,8 +397,8 @@ theorem CacheGood.default (w : World) : CacheGood w default :=
   ⟨fun m e h => (by cases h), fun k m h => (by cases h)⟩
 
 theorem getCache_spec {a : Nat} {F : Prop} {P : World → Prop} (c : Nat) :
-    Spec a F P (getCache c) (fun kc w => CacheGood w kc) := by
-  refine Spec.of_still (getCache_ext c) (getCache_still c) fun w _ hi _ _ => Or.inr ⟨fun v hv => ?_, fun _ => ⟨_, rfl⟩⟩
+    CSpec a F P (getCache c) (fun kc w => CacheGood w kc) := by
+  refine CSpec.of_still (getCache_ext c) (getCache_still c) fun w _ hi _ _ => Or.inr ⟨fun v hv => ?_, fun _ => ⟨_, rfl⟩⟩
   simp only [getCache] at hv ⊢
   cases hv
   simp only [List.getD_eq_getElem?_getD]
@@ -407,7 +407,7 @@ theorem getCache_spec {a : Nat} {F : Prop} {P : World → Prop} (c : Nat) :
   | some kc => exact hi.coh c kc h
 
 theorem setCache_spec {a : Nat} {F : Prop} (c : Nat) (kc : KeyCache) :
-    Spec a F (fun w => CacheGood w kc) (setCache c kc) (fun _ _ => True) := by
+    CSpec a F (fun w => CacheGood w kc) (setCache c kc) (fun _ _ => True) := by
   refine ⟨setCache_ext c kc, fun w _ hi hnf hp => Or.inr ⟨⟨hi.wf, ?_⟩, hnf, fun _ _ => trivial, fun _ => ⟨(), rfl⟩⟩⟩
   intro c' kc' h
   simp only [setCache, modify_run, setAt_getElem?] at h
